@@ -8,6 +8,7 @@ import Driver.Broker
 import Driver.Proto3
 import Driver.Stores
 import Driver.Clients
+import Driver.Blocking
 open Driver
 
 structure DSt where
@@ -16,6 +17,7 @@ structure DSt where
   proto3 : Proto3D.St := {}
   stores : StoresD.St := {}
   clients : ClientsD.St := {}
+  blocking : BlockingD.St := {}
 
 def dispatch (st : DSt) (line : String) : DSt × String :=
   let toks := (line.trimAscii.toString.splitOn " ").filter (· ≠ "")
@@ -32,6 +34,8 @@ def dispatch (st : DSt) (line : String) : DSt × String :=
       let (p, out) := StoresD.step st.stores toks; ({ st with stores := p }, out)
     else if t.startsWith "a." || t.startsWith "t." then
       let (p, out) := ClientsD.step st.clients toks; ({ st with clients := p }, out)
+    else if t.startsWith "r." || t.startsWith "q." then
+      let (p, out) := BlockingD.step st.blocking toks; ({ st with blocking := p }, out)
     else if t == "ping" then (st, "pong")
     else (st, "bad-op")
 
